@@ -31,6 +31,8 @@ pub enum Build {
 #[derive(Debug, Clone)]
 pub struct Case {
     pub build: Vec<Build>,
+    /// fetch (and compare) the state after stage i as well, not only at the end
+    pub fetch_after: Vec<bool>,
     pub keyspace: String,
 }
 
@@ -81,7 +83,7 @@ impl Prop for Transfer {
 
     fn gen(&self, src: &mut Src) -> Case {
         let mut build = vec![];
-        let stages = src.below(4);
+        let stages = src.below(6);
         for _ in 0..stages {
             match src.weighted(&[6, 2, 2]) {
                 0 => build.push(Build::Ops(gen_ops(src))),
@@ -97,7 +99,8 @@ impl Prop for Transfer {
             }
         }
         let keyspace = src.pick(&["ks", "a", "a-much-longer-keyspace-name-to-shift-offsets", "k\u{e9}y"]).to_string();
-        Case { build, keyspace }
+        let fetch_after = (0..build.len()).map(|_| src.chance(1, 2)).collect();
+        Case { build, fetch_after, keyspace }
     }
 
     fn run(&self, case: &Case) -> Outcome {
@@ -107,6 +110,7 @@ impl Prop for Transfer {
     fn describe(&self, case: &Case) -> Value {
         json!({
             "keyspace": case.keyspace,
+            "fetch_after_stage": case.fetch_after,
             "build": case.build.iter().map(|b| match b {
                 Build::Ops(ops) => json!(ops.iter().map(|(o, s)| { let mut j = o.json(); j["source"] = json!(s); j }).collect::<Vec<_>>()),
                 Build::Purge => json!("purge"),
@@ -116,10 +120,11 @@ impl Prop for Transfer {
     }
 
     fn rule(&self) -> &'static str {
-        "sender keyspace states built on a real KeyspaceGroup by 0-3 stages: op histories (0-13 inserts/deletes, 1-4 \
+        "sender keyspace states built on a real KeyspaceGroup by 0-5 stages: op histories (0-13 inserts/deletes, 1-4 \
          origins, both sources, stamps stepping up to 2 h), purges, and bulk loads of 1-20000 entries from 1-40 \
          origins; the state is fetched with the real ReplicationClient::get_state from the real ReplicationService \
-         over the in-process transport; oracle: received set == the sender's set at that moment in live ids, \
+         over the in-process transport, at the end and after a generated subset of the stages (so a fetch can follow a \
+         purge or a failed request directly); oracle: received set == the sender's set at that moment in live ids, \
          tombstones and stamps, in will_apply on a probe grid (every key and an unused key x every held stamp +-1 \
          counter, -1 h, +1 h, per origin), and in the return value and effect of one further insert/delete applied to \
          clones of both; last_updated equals the sender's; non-trivial = >=1 tombstone, >=2 origins and both sources \
@@ -140,7 +145,9 @@ async fn run(case: &Case) -> Outcome {
     // Reference state, built by applying the same operations directly to a set of our own (the
     // keyspace actor applies an operation iff will_apply, bulk requests in stamp order).
     let mut reference = OrSWotSet::<2>::default();
-    for b in &case.build {
+    let mut client = ReplicationClient::<ModelStore>::new(Clock::new(2), Channel::connect(addr));
+    let mut fetches = 0;
+    for (stage, b) in case.build.iter().enumerate() {
         match b {
             Build::Ops(ops) => {
                 let m = group.get_or_create_keyspace(ks).await;
@@ -186,6 +193,19 @@ async fn run(case: &Case) -> Outcome {
                 }
             },
         }
+        if case.fetch_after[stage] {
+            fetches += 1;
+            let _ = group.get_or_create_keyspace(ks).await;
+            match client.get_state(ks).await {
+                Ok((_, received)) => compare_sets(&reference, &received).map_err(|mut f| {
+                    f.message = format!("fetch after stage {stage}: {}", f.message);
+                    f
+                })?,
+                Err(status) => {
+                    return Err(Fail { signature: "get-state-failed".into(), message: format!("get_state after stage {stage} failed: {status:?}") })
+                },
+            }
+        }
     }
     // make sure the keyspace exists on the sender (an empty state is a legal state)
     let _ = group.get_or_create_keyspace(ks).await;
@@ -197,7 +217,6 @@ async fn run(case: &Case) -> Outcome {
         .send(datacake_eventual_consistency::verif::LastUpdated)
         .await;
 
-    let mut client = ReplicationClient::<ModelStore>::new(Clock::new(2), Channel::connect(addr));
     let got = client.get_state(ks).await;
     let (last_updated, received) = match got {
         Ok(v) => v,
@@ -230,6 +249,9 @@ async fn run(case: &Case) -> Outcome {
     }
     if case.build.iter().any(|b| matches!(b, Build::Purge)) {
         labels.push("purged_stage");
+    }
+    if fetches > 0 {
+        labels.push("several_fetches");
     }
     let nontrivial = !v.dead.is_empty() && origins.len() >= 2 && sources.len() == 2;
     let _ = Arc::new(());
